@@ -78,6 +78,7 @@ class Sim(object):
         self.target = cfg.get('target')
         self.escaped = []
         self.failed_cids = {}
+        self.pending_old_ae = []
         self.cb_seen = 0
         self.napplied = collections.Counter()
         self.snapshot_msgs = 0
@@ -88,6 +89,11 @@ class Sim(object):
         self.on_deliver_hooks = []
         self.after_step_hooks = []
         self.votes = collections.defaultdict(set)   # (voter, term) -> set(candidates)
+        self.votes_flat = collections.defaultdict(set)
+        self.vote_inc = {}
+        self.max_term = collections.Counter()
+        self.last_voter = None
+        self.killed_after_vote = 0
         self.inflight_ae = collections.Counter()
         self.max_inflight_ae = 0
         self.commit_after_pipelining = False
@@ -188,7 +194,17 @@ class Sim(object):
             h(x, y, gen, message)
 
     def votes_flat_add(self, voter, term, cand):
-        pass
+        self.last_voter = voter
+        k = (voter, term)
+        self.votes_flat[k].add(cand)
+        if len(self.votes_flat[k]) > 1:
+            restarted = self.vote_inc.get(k) != self.incarnation[voter]
+            self.V('C07' if restarted else 'C03', 'second-vote-in-term' + (':restarted-between' if restarted else ''),
+                   '%s sent response_vote for term %d to %s after having voted for %s in the same term%s' % (
+                       voter, term, cand, sorted(self.votes_flat[k] - {cand}), ' (restarted in between)' if restarted else ''))
+        self.vote_inc.setdefault(k, self.incarnation[voter])
+        if term < self.max_term[voter]:
+            self.V('C07', 'vote-for-older-term', '%s granted a vote for term %d although it had acknowledged term %d before' % (voter, term, self.max_term[voter]))
 
     def on_deliver(self, frm, to, gen, message):
         if isinstance(message, dict) and message.get('type') == 'next_node_idx':
@@ -197,6 +213,9 @@ class Sim(object):
                 self.inflight_ae[k] = 0
         if isinstance(message, dict) and message.get('serialized') is not None:
             self.snapshot_msgs += 1
+        if isinstance(message, dict) and message.get('type') == 'append_entries' and not self.is_ro(to):
+            if message['term'] < self.max_term[to]:
+                self.pending_old_ae.append((to, frm, message['term'], self.max_term[to]))
         for h in self.on_deliver_hooks:
             h(frm, to, gen, message)
 
@@ -416,6 +435,34 @@ class Sim(object):
         self.blocked = set()
         return ()
 
+    def dead_voters(self):
+        return [n for n in self.voters if n not in self.nodes]
+
+    def op_kill(self, a, b, c):
+        cands = [n for n in self.voters if n in self.nodes]
+        if not cands:
+            return False
+        name = self.pick(cands, a)
+        self.stop_node(name, clean=False)
+        return (name,)
+
+    def op_killvoter(self, a, b, c):
+        name = self.last_voter
+        if name is None or name not in self.nodes:
+            return self.op_kill(a, b, c)
+        self.stop_node(name, clean=False)
+        self.killed_after_vote += 1
+        self.last_voter = None
+        return (name,)
+
+    def op_restart(self, a, b, c):
+        cands = self.dead_voters()
+        if not cands:
+            return False
+        name = self.pick(cands, a)
+        self.restart_node(name)
+        return (name,)
+
     # ---------------------------------------------------------------- monitors
     def V(self, prop, sig, detail):
         if (prop, sig) in self.fired:
@@ -470,6 +517,15 @@ class Sim(object):
         return True
 
     def check(self, light=False):
+        for (to, frm, t, mx) in self.pending_old_ae:
+            obj = self.nodes.get(to)
+            if obj is not None and obj._getLeader() == self.node_obj(frm) and obj.raftCurrentTerm < mx:
+                self.V('C07', 'follows-leader-of-older-term', '%s follows %s as leader of term %d although it had acknowledged term %d before' % (to, frm, t, mx))
+        self.pending_old_ae = []
+        for name in self.live():
+            t = self.nodes[name].raftCurrentTerm
+            if t > self.max_term[name]:
+                self.max_term[name] = t
         advanced = []
         for name in self.live():
             obj = self.nodes[name]
